@@ -26,6 +26,9 @@ inductive Err
   | noColumns       -- ValueError: No data columns were selected to be loaded (text loader)
   | schemaMismatch  -- pyarrow.concat_tables on tables with different schemas
   | noLivetime      -- ValueError: No livetime was specified
+  | castKind        -- TypeError: Cannot cast array data … according to the rule 'same_kind' (np.copyto)
+  | castOverflow    -- OverflowError: Python integer … out of bounds (element assignment)
+  | zeroDivision    -- ZeroDivisionError (`ridx % bs` with bs = 0)
   deriving DecidableEq, Repr, Inhabited
 
 /-- `mapM` in the `Except` monad, written out (first error wins, left to right). -/
@@ -111,14 +114,23 @@ def openFile (fs : P → Option (File N D V)) (p : P) : Except Err (File N D V) 
   | some f => .ok f
   | none => .error .fileMissing
 
-variable (cast : D → D → V → V)
+/- The code converts cells on two different paths: `np.copyto(field_arr, column)` in the
+`DataFieldRecordArray` constructor (casting rule 'same_kind': a kind-changing conversion is a
+`TypeError`, integers wrap) and the element assignment `data[fname][ridx] = row[fidx]` in the
+memory-efficient row loop (floats are truncated, an integer that does not fit is an
+`OverflowError`).  Both are parameters with an error result; `cast` (total) is numpy's value
+conversion used by `np.append` (always to the promoted dtype) and by the specification. -/
+variable (castCopy castAssign : D → D → V → Except Err V) (cast : D → D → V → V)
 
 /-- `DataFieldRecordArray(ndarray, keep_fields, dtype_conversions, except_fields)`:
 column projection + conversion (`np.empty` + `np.copyto`). -/
 def ctorNd (o : Opts N D) (f : File N D V) : Except Err (Arr N D V) :=
   match mapE (fun (s : Nat × N × D × D) =>
       match column f.rows s.1 with
-      | .ok c => .ok (Col.mk s.2.1 s.2.2.2 (c.map (cast s.2.2.1 s.2.2.2)))
+      | .ok c =>
+        match mapE (castCopy s.2.2.1 s.2.2.2) c with
+        | .ok c' => .ok (Col.mk s.2.1 s.2.2.2 c')
+        | .error e => .error e
       | .error e => .error e) (selected o f.schema) with
   | .error e => .error e
   | .ok cols => .ok ⟨cols, arrLen cols⟩
@@ -127,12 +139,12 @@ def ctorNd (o : Opts N D) (f : File N D V) : Except Err (Arr N D V) :=
 def loadFileTime (fs : P → Option (File N D V)) (p : P) (o : Opts N D) : Except Err (Arr N D V) :=
   match openFile fs p with
   | .error e => .error e
-  | .ok f => ctorNd cast o f
+  | .ok f => ctorNd castCopy o f
 
 /-- inner loop `for fname in data.keys(): data[fname][ridx] = row[fidx]` — the values -/
 def rowVals (sel : List (Nat × N × D × D)) (row : List V) : Except Err (List V) :=
   mapE (fun (s : Nat × N × D × D) => match row[s.1]? with
-    | some v => .ok (cast s.2.2.1 s.2.2.2 v)
+    | some v => castAssign s.2.2.1 s.2.2.2 v
     | none => .error .indexError) sel
 
 /-- … and the assignments into the pre-allocated columns -/
@@ -148,10 +160,11 @@ def memRows (reopen : Except Err (File N D V)) (bs : Nat) (sel : List (Nat × N 
     match mm.rows[ridx]? with
     | none => .error .indexError
     | some row =>
-      match rowVals cast sel row with
+      match rowVals castAssign sel row with
       | .error e => .error e
       | .ok vals =>
-        if ridx % bs = 0 then
+        if bs = 0 then .error .zeroDivision
+        else if ridx % bs = 0 then
           match reopen with
           | .error e => .error e
           | .ok mm' => memRows reopen bs sel k (ridx + 1) mm' (assignRow data ridx vals)
@@ -174,7 +187,7 @@ def loadFileMem (fs : P → Option (File N D V)) (bs : Nat) (p : P) (o : Opts N 
   | .ok mm =>
     let sel := selected o mm.schema
     let n := mm.rows.length
-    match memRows cast (openFile fs p) bs sel n 0 mm (sel.map fun _ => List.replicate n none) with
+    match memRows castAssign (openFile fs p) bs sel n 0 mm (sel.map fun _ => List.replicate n none) with
     | .error e => .error e
     | .ok data =>
       match mapE freeze data with
@@ -184,8 +197,8 @@ def loadFileMem (fs : P → Option (File N D V)) (bs : Nat) (p : P) (o : Opts N 
 def loadFile (mode : Mode) (fs : P → Option (File N D V)) (bs : Nat) (p : P) (o : Opts N D) :
     Except Err (Arr N D V) :=
   match mode with
-  | .time => loadFileTime cast fs p o
-  | .memory => loadFileMem cast fs bs p o
+  | .time => loadFileTime castCopy fs p o
+  | .memory => loadFileMem castAssign fs bs p o
 
 def findCol (cols : List (Col N D V)) (n : N) : Option (Col N D V) :=
   cols.find? (fun c => decide (c.name = n))
@@ -221,9 +234,9 @@ def npyLoad (mode : Mode) (fs : P → Option (File N D V)) (bs : Nat) (paths : L
   match paths with
   | [] => .error .indexError
   | p :: ps =>
-    match loadFile cast mode fs bs p o with
+    match loadFile castCopy castAssign mode fs bs p o with
     | .error e => .error e
-    | .ok a => appendAll cast promote (fun q => loadFile cast mode fs bs q o) a ps
+    | .ok a => appendAll cast promote (fun q => loadFile castCopy castAssign mode fs bs q o) a ps
 
 /-! ### parquet: `read_table(columns = kept fields present in the file)`, `concat_tables`, constructor -/
 
@@ -258,13 +271,13 @@ def pqAll (fs : P → Option (File N D V)) (keep : Option (List N)) :
         else .error .schemaMismatch
 
 /-- `DataFieldRecordArray(table, ParquetDataTableAccessor(), keep_fields, conversions, except)` -/
-def ctorPq (o : Opts N D) (t : PqTable N D V) : Arr N D V :=
-  let cols := t.filterMap (fun c =>
-    if isKept o.keep c.1 then
-      some (Col.mk c.1 (targetDt o.conv o.exc c.1 c.2.1)
-        (c.2.2.map (cast c.2.1 (targetDt o.conv o.exc c.1 c.2.1))))
-    else none)
-  ⟨cols, arrLen cols⟩
+def ctorPq (o : Opts N D) (t : PqTable N D V) : Except Err (Arr N D V) :=
+  match mapE (fun (c : N × D × List V) =>
+      match mapE (castCopy c.2.1 (targetDt o.conv o.exc c.1 c.2.1)) c.2.2 with
+      | .ok c' => .ok (Col.mk c.1 (targetDt o.conv o.exc c.1 c.2.1) c')
+      | .error e => .error e) (t.filter (fun c => isKept o.keep c.1)) with
+  | .error e => .error e
+  | .ok cols => .ok ⟨cols, arrLen cols⟩
 
 /-- `ParquetFileLoader.load_data` -/
 def parquetLoad (fs : P → Option (File N D V)) (paths : List P) (o : Opts N D) :
@@ -280,14 +293,14 @@ def parquetLoad (fs : P → Option (File N D V)) (paths : List P) (o : Opts N D)
       | .ok t =>
         match pqAll fs o.keep t ps with
         | .error e => .error e
-        | .ok tab => .ok (ctorPq cast o tab)
+        | .ok tab => ctorPq castCopy o tab
 
 /-! ### text files: header = field names, every column float64 -/
 
-/-- `TextFileLoader._load_file` on a file whose columns all have the dtype `f8`:
-`np.loadtxt(usecols = kept columns)` yields the table of the kept columns (an empty selection is
-refused), which goes through the `DataFieldRecordArray` constructor with the same options. -/
-def csvLoadFile (fs : P → Option (File N D V)) (p : P) (o : Opts N D) : Except Err (Arr N D V) :=
+/-- `TextFileLoader._load_file`: `np.loadtxt(usecols = kept columns, dtype = float64 for every
+column)` yields the table of the kept columns, every one read as `f8` (an empty selection is
+refused); it then goes through the `DataFieldRecordArray` constructor with the same options. -/
+def csvLoadFile (f8 : D) (fs : P → Option (File N D V)) (p : P) (o : Opts N D) : Except Err (Arr N D V) :=
   match openFile fs p with
   | .error e => .error e
   | .ok f =>
@@ -295,15 +308,15 @@ def csvLoadFile (fs : P → Option (File N D V)) (p : P) (o : Opts N D) : Except
     else
       match pqRead o.keep f with
       | .error e => .error e
-      | .ok t => .ok (ctorPq cast o t)
+      | .ok t => ctorPq castCopy o (t.map (fun c => (c.1, f8, c.2.2.map (cast c.2.1 f8))))
 
-def csvLoad (fs : P → Option (File N D V)) (paths : List P) (o : Opts N D) : Except Err (Arr N D V) :=
+def csvLoad (f8 : D) (fs : P → Option (File N D V)) (paths : List P) (o : Opts N D) : Except Err (Arr N D V) :=
   match paths with
   | [] => .error .indexError
   | p :: ps =>
-    match csvLoadFile cast fs p o with
+    match csvLoadFile castCopy cast f8 fs p o with
     | .error e => .error e
-    | .ok a => appendAll cast promote (fun q => csvLoadFile cast fs q o) a ps
+    | .ok a => appendAll cast promote (fun q => csvLoadFile castCopy cast f8 fs q o) a ps
 
 end generic
 
@@ -598,6 +611,21 @@ def castCell (a b : DT) (v : Int) : Int :=
   | .f8, .i4 => wrap32 (f8OfBits v).toInt64.toInt
   | .f4, .i8 => (f4OfBits v).toFloat.toInt64.toInt
   | .f4, .i4 => wrap32 (f4OfBits v).toFloat.toInt64.toInt
+
+def isFloatDT : DT → Bool
+  | .f8 | .f4 => true
+  | _ => false
+
+/-- `np.copyto(..., casting='same_kind')`: float → int is refused, everything else is the C cast -/
+def castCopyCell (a b : DT) (v : Int) : Except Err Int :=
+  if isFloatDT a && !isFloatDT b then .error .castKind else .ok (castCell a b v)
+
+/-- element assignment `arr[i] = scalar`: an integer that does not fit the target is refused,
+everything else (float → int truncation included) is the C cast -/
+def castAssignCell (a b : DT) (v : Int) : Except Err Int :=
+  match a, b with
+  | .i8, .i4 => if v < -2147483648 ∨ 2147483647 < v then .error .castOverflow else .ok v
+  | _, _ => .ok (castCell a b v)
 
 /-- `numpy.promote_types` on the four dtypes -/
 def promoteDT (a b : DT) : DT :=
